@@ -71,10 +71,27 @@ class Session:
     def notify(self, method, params):
         return self._send({'jsonrpc': '2.0', 'method': method, 'params': params})
 
+    def request_with_trailing(self, method, params, trailing):
+        """a request and the notifications `trailing` [(method, params)..] delivered in ONE write, so that they sit in the server's read buffer
+        together: the main loop dispatches the request and handles the notification before it yields to its runtime.  returns the response"""
+        rid = self.next_id; self.next_id += 1
+        buf = b''
+        for msg in [{'jsonrpc': '2.0', 'id': rid, 'method': method, 'params': params}] + [{'jsonrpc': '2.0', 'method': m, 'params': p_} for m, p_ in trailing]:
+            body = json.dumps(msg).encode()
+            buf += b'Content-Length: %d\r\n\r\n' % len(body) + body
+        try:
+            self.p.stdin.write(buf); self.p.stdin.flush()
+        except (BrokenPipeError, OSError):
+            return {'dead': self.p.poll()}
+        return self._await(rid)
+
     def request(self, method, params):
         """returns the response dict, or {'dead': exit status} / {'timeout': True}"""
         rid = self.next_id; self.next_id += 1
         self._send({'jsonrpc': '2.0', 'id': rid, 'method': method, 'params': params})
+        return self._await(rid)
+
+    def _await(self, rid):
         deadline = time.time() + self.timeout
         while True:
             left = deadline - time.time()
